@@ -36,7 +36,16 @@
         after ANY history of such calls (C05_table_win_sound_complete; abstract form C05_table_win_sound_complete_abstract; invariant
         C05_table_valid_preserved; per-search form C05_table_search_verdict; block at the end of this file).  Hypotheses left: the set U
         of touched positions with NoCollision (touch_set: equal Position.Hash => same forced-result classification), positions of at
-        most 64 pieces satisfying C01's invariant, ply + 40 <= max_terminal_ply, configured depth < 40 (model fuel; ai.maxDepth = 15).
+        most 64 pieces satisfying C01's invariant, ply + configured depth <= max_terminal_ply, configured depth < 40 (the recursion fuel
+        of the model; the Go code indexes m.stack[ply] with ply < Depth in an array of ai.maxDepth = 15 frames and has no clamp, so it
+        cannot run deeper than 15 without an index panic: the bound covers every depth the code can run).
+        For the positions of ONE game (replayed from tak.New, at most 64 pieces) the hash hypothesis is the syntactic one - equal
+        Position.Hash on the touched set implies Position.Equal - and C01's invariant is derived: C05_table_win_sound_complete_game
+        (W / L are invariant under PnCong1.sim: C05_table_sim_classification).
+        SOUNDNESS ("a reported win or loss is a real forced one") is proved for EVERY configuration without null move - slide
+        reduction, multi-cut, any table, any history, no bound on the depth: C05_table_sound_any_config.  The completeness half is false
+        for those configurations by design; with the null move even soundness is not a theorem about the rules (a null-move cut is a
+        claim about a position the rules cannot reach) - those stay with the forced-result oracle.
 
    How Search.v's pvSearch/zwSearch instantiate the abstract PVS of Pvs.v.  Pvs.v fixes a finite game tree T ev over kids, evaluates
    [negamax d], and defines [zw d t a] (zero-window: the children are scouted with window (-a-1, -a); the node returns a+1 if some child
@@ -458,3 +467,78 @@ Theorem C05_table_example_class :
 Proof. exact rootw_class. Qed.
 Print Assumptions C05_table_example_class.
 
+
+
+(* ================================================================================================================================
+   THE TABLE CLAUSE, second round (proofs SearchTable6-8.v, SearchTableEx2.v)
+   ================================================================================================================================ *)
+Require Import SearchTable6 SearchTable7 SearchTable8 SearchTableEx2.
+Require PnCong1.
+
+(* the forced-result classification cannot tell apart two position records that differ only in a ply counter of the same parity on the
+   same side of the opening (PnCong1.sim) *)
+Theorem C05_table_sim_classification : forall basis q p, PnCong1.sim q p -> cls_eq basis q p.
+Proof. exact table_sim_classification. Qed.
+Print Assumptions C05_table_sim_classification.
+
+(* a touched set of positions of one game needs only the syntactic NoCollision: equal Position.Hash implies Position.Equal *)
+Theorem C05_table_game_touch : forall sz bwt stones caps, (3 <= sz <= 8)%N -> (2 * (stones + caps) <= 64)%N ->
+  forall U, game_set sz bwt stones caps U -> touch_set U.
+Proof. exact table_game_touch. Qed.
+Print Assumptions C05_table_game_touch.
+
+(* The table clause for the positions of ONE game.  game_set sz bwt stones caps U: U (S d) p -> U d p; legal successors of live
+   U (S d) positions are in U d; every U 0 position is replayed from tak.New(sz, bwt, stones, caps) through accepted moves; two U 0
+   positions with the same Position.Hash are Position.Equal.  ask_game cfg U p: ply + configured depth <= max_terminal_ply, game not
+   over, configured depth < 40, p in U d for d up to the configured depth.  engine_game U s: fresh, or left by any history of such
+   calls (precise, either built-in evaluator, cancelled anywhere or never). *)
+Theorem C05_table_win_sound_complete_game : forall sz bwt stones caps, (3 <= sz <= 8)%N -> (0 < stones)%N -> (2 * (stones + caps) <= 64)%N ->
+  forall U, game_set sz bwt stones caps U ->
+  forall s cfg k p sk pv v d acc c, engine_game U s -> precise cfg -> builtin_eval cfg -> ask_game cfg U p ->
+  analyze_cancel gen_basis cfg k s p = (sk, (pv, v, d, acc, c)) -> 0 < d -> verdict_ok gen_basis p v d.
+Proof. exact table_win_sound_complete_game. Qed.
+Print Assumptions C05_table_win_sound_complete_game.
+
+(* the tree of depth D below a position of the game is such a set as soon as no two of its positions share a hash (boolean check) *)
+Theorem C05_table_game_levels : forall sz bwt stones caps, (3 <= sz <= 8)%N -> (0 < stones)%N -> (2 * (stones + caps) <= 64)%N ->
+  forall root D, in_game sz bwt stones caps root -> coll_free (lev root D) = true -> game_set sz bwt stones caps (Ulev root D).
+Proof. exact table_game_levels. Qed.
+Print Assumptions C05_table_game_levels.
+
+(* non-vacuity of the one-game form: the example of C05_table_example inside the 3x3 game with 10 stones a side *)
+Theorem C05_table_game_example :
+  game_set 3 false 10 0 Uex /\ ask_game cfg3t Uex rootw /\ ask_game cfg2t Uex rootb /\
+  verdict_ok gen_basis rootw (r_value (snd run2)) (r_depth (snd run2)) /\
+  verdict_ok gen_basis rootb (r_value (snd run3)) (r_depth (snd run3)).
+Proof. exact game_theorems_apply. Qed.
+Print Assumptions C05_table_game_example.
+
+(* SOUNDNESS for every configuration without null move (slide reduction, multi-cut, table of any size, sort on/off, either evaluator,
+   cancelled anywhere or never, any history of such calls - precise ones included; no bound on the configured depth, any reported
+   depth): sound_verdict basis p v := (v > WinThreshold -> exists n, W n p) /\ (v < -WinThreshold -> exists n, L n p).
+   ask_s = ask_ok without the fuel bound.  PARTIAL with respect to the property's sentence only in that the completeness half
+   ("a forced result within the searched depth is reported") is not claimed - it is false for these configurations by design. *)
+Theorem C05_table_sound_any_config : forall U, touch_set U ->
+  forall s cfg k p sk pv v d acc c, engine_sinst U s -> c_nonull cfg = true -> builtin_eval cfg -> ask_s cfg U p ->
+  analyze_cancel gen_basis cfg k s p = (sk, (pv, v, d, acc, c)) -> sound_verdict gen_basis p v.
+Proof. exact table_sound_any_config_inst. Qed.
+Print Assumptions C05_table_sound_any_config.
+
+Theorem C05_table_sound_any_config_abstract : forall basis Pos, table_facts basis Pos ->
+  forall s cfg k p sk pv v d acc c, engine_s basis Pos s -> c_nonull cfg = true -> eval_facts cfg Pos -> call_s cfg Pos p ->
+  analyze_cancel basis cfg k s p = (sk, (pv, v, d, acc, c)) -> sound_verdict basis p v.
+Proof. exact table_sound_any_config. Qed.
+Print Assumptions C05_table_sound_any_config_abstract.
+
+(* per search: every value zwSearch / pvSearch returns - also after an abort, also out of fuel - is sound for its window *)
+Theorem C05_table_sound_search : forall basis cfg k, c_nonull cfg = true -> forall Pos, table_facts basis Pos -> eval_facts cfg Pos ->
+  forall f, ts_ok basis Pos (srch false basis cfg k f).
+Proof. exact table_sound_search. Qed.
+Print Assumptions C05_table_sound_search.
+
+(* non-vacuity: slide reduction and multi-cut switched ON, no null move, 64-entry table, a cancelled call then an uninterrupted one *)
+Theorem C05_table_sound_example :
+  c_nonull cfgR = true /\ c_noreduce cfgR = false /\ c_multicut cfgR = true /\ ask_s cfgR Uex rootw /\
+  sound_verdict gen_basis rootw (r_value (snd runR2)) /\ WinThreshold < r_value (snd runR2) /\ (exists n, W gen_basis n rootw).
+Proof. exact sound_theorem_applies. Qed.
+Print Assumptions C05_table_sound_example.
